@@ -11,6 +11,7 @@ the domain (NF: an opaque two-armed Phi; intervals: the hull).
 from __future__ import annotations
 
 import ast
+import copy
 from dataclasses import dataclass, field
 from typing import Any, Callable, Optional
 
@@ -257,6 +258,17 @@ class Interp:
         if isinstance(st, ast.Expr):
             if isinstance(st.value, ast.Constant):
                 return "fall"  # docstring
+            outs = [k for k in st.value.keywords if k.arg == "out"] if isinstance(st.value, ast.Call) else []
+            if outs and isinstance(outs[0].value, (ast.Name, ast.Attribute, ast.Subscript)):
+                # np.clip(U, lo, hi, out=U): an in-place write, read as `U = np.clip(U, lo, hi)`
+                call = ast.Call(func=st.value.func, args=st.value.args, keywords=[k for k in st.value.keywords if k.arg != "out"])
+                ast.copy_location(call, st.value)
+                tgt = copy.deepcopy(outs[0].value)
+                for n in ast.walk(tgt):
+                    if hasattr(n, "ctx") and n is tgt:
+                        n.ctx = ast.Store()
+                self.assign(tgt, self.eval(call, fr), fr, st)
+                return "fall"
             self.eval(st.value, fr)
             return "fall"
         if isinstance(st, ast.Assign):
